@@ -73,8 +73,11 @@ type c03Schema struct {
 }
 
 func genC03(t *rapid.T) any {
-	names := genNames(t, 6, nil, "names")
+	names := genNames(t, 9, nil, "names")
 	ng := rapid.IntRange(1, 3).Draw(t, "ngroupcols")
+	if rapid.IntRange(0, 6).Draw(t, "manygroupcols") == 0 {
+		ng = rapid.IntRange(4, 6).Draw(t, "ngroupcols.many") // wide keys: rows may agree on all but the last grouping column
+	}
 	nv := rapid.IntRange(2, 3).Draw(t, "nvalcols")
 	var sch c03Schema
 	for i := 0; i < ng; i++ {
@@ -112,7 +115,7 @@ func genC03(t *rapid.T) any {
 		sch.groupCols[1].Pool = append([]any{}, a.Pool...)
 	}
 	for i := 0; i < nv; i++ {
-		c := Col{Name: names[3+i], Kind: "num", Nullable: i > 0 && rapid.Bool().Draw(t, fmt.Sprintf("v%d.nullable", i))}
+		c := Col{Name: names[6+i], Kind: "num", Nullable: i > 0 && rapid.Bool().Draw(t, fmt.Sprintf("v%d.nullable", i))}
 		n := rapid.IntRange(2, 4).Draw(t, fmt.Sprintf("v%d.card", i))
 		for j := 0; j < n; j++ {
 			c.Pool = append(c.Pool, rapid.SampledFrom([]float64{-3, -1.5, 0, 1, 2, 2.5, 4, 10, 100.25}).Draw(t, fmt.Sprintf("v%d.p%d", i, j)))
@@ -229,6 +232,9 @@ func genC03(t *rapid.T) any {
 	}
 	if c.Shape != "whole" {
 		k := rapid.IntRange(1, ng).Draw(t, "nkeys")
+		if ng >= 4 && rapid.Bool().Draw(t, "allkeys") {
+			k = ng
+		}
 		perm := rapid.Permutation(sch.groupCols).Draw(t, "keyperm")
 		for _, gc := range perm[:k] {
 			c.GroupCols = append(c.GroupCols, gc.Name)
